@@ -40,7 +40,10 @@ def ndjson(text):
     for line in text.splitlines():
         line = line.strip()
         if line.startswith("{"):
-            out.append(json.loads(line))
+            try:
+                out.append(json.loads(line))
+            except ValueError:          # a line cut short by a crash of the process that wrote it
+                pass
     return out
 
 
